@@ -185,6 +185,7 @@ namespace pika::detail {
     {
         scoped_lock_if_not_stopped l(*this, cb);
         if (!l) return false;
+        PIKA_VERIF_POINT("st.add.locked", this, 0, 0);
 
         // Push callback onto callback list
         cb->add_this_callback(callbacks_);
@@ -196,6 +197,7 @@ namespace pika::detail {
     {
         {
             std::lock_guard<stop_state> l(*this);
+            PIKA_VERIF_POINT("st.rm.locked", this, 0, 0);
             if (cb->remove_this_callback()) { return; }
         }
         PIKA_VERIF_POINT("st.rm.notlinked", this, 0, 0);
